@@ -235,7 +235,11 @@ def plan(case, seed_rng, tier):
     k = case["kind"]
     out = []
     if k == "string":
+        # async / sandbox differ from default only behind the parser: needed only when a tag can open
+        deep = "BS" in case["syms"] or "VS" in case["syms"] or "{" in case["syms"]
         for envname in ENV_CONFIGS:
+            if envname in ("async", "sandbox") and not deep:
+                continue
             exp = "compiles" if SYNTAX_OF[envname] in case["plain"] else "compiles-or-syntax-error"
             out.append((envname, "ascii", exp))
     elif k == "valid":
